@@ -3,7 +3,7 @@
 # store the confirmed ones under seeded/, and run every check against them on scratch copies (tools/corpus.py)
 cd "$(dirname "$0")/.."
 for s in "$@"; do
-  if [ -d /tmp/seeds/$s ]; then tools/verify_seed.py /tmp/seeds/$s 2>&1 | tail -1; fi
+  if [ -d ${SEEDS_DIR:-/tmp/seeds}/$s ]; then tools/verify_seed.py ${SEEDS_DIR:-/tmp/seeds}/$s 2>&1 | tail -1; fi
 done
 ok=""
 for s in "$@"; do [ -d seeded/$s ] && ok="$ok $s"; done
